@@ -31,3 +31,18 @@ Definition demo2_pages : list page :=
 Definition demo2 : vfs := open_file demo2_pages [(7, 64, 512)] 0.
 Definition demo2_nth (k : nat) : page :=
   nth k demo2_pages {| pg_off := 0; pg_len := 0; pg_serial := 0; pg_gran := 0; pg_bos := false; pg_eos := false; pg_cont := false; pg_pkts := [] |}.
+
+(* a link for half-rate decoding: block sizes 256/2048, opened with the half-rate flag set *)
+Definition demo3_pages : list page :=
+  let a w g e := {| pk_W := Some w; pk_gran := g; pk_eos := e |} in
+  let h g := {| pk_W := None; pk_gran := g; pk_eos := false |} in
+  let pgm off g pk := {| pg_off := off; pg_len := 40; pg_serial := 9; pg_gran := g; pg_bos := false; pg_eos := false; pg_cont := false; pg_pkts := pk |} in
+  [ {| pg_off := 0; pg_len := 58; pg_serial := 9; pg_gran := 0; pg_bos := true; pg_eos := false; pg_cont := false; pg_pkts := [h 0] |};
+    {| pg_off := 58; pg_len := 100; pg_serial := 9; pg_gran := 0; pg_bos := false; pg_eos := false; pg_cont := false; pg_pkts := [h (-1); h 0] |};
+    pgm 158 128 [a false (-1) false; a false 128 false];
+    pgm 198 256 [a false 256 false];
+    pgm 238 960 [a false (-1) false; a true 960 false];
+    pgm 278 1984 [a true 1984 false];
+    pgm 318 2688 [a false (-1) false; a false 2688 false];
+    {| pg_off := 358; pg_len := 40; pg_serial := 9; pg_gran := 2700; pg_bos := false; pg_eos := true; pg_cont := false; pg_pkts := [a false 2700 true] |} ].
+Definition demo3 : vfs := open_file demo3_pages [(9, 256, 2048)] 1.
